@@ -112,7 +112,9 @@ class Contract:
         allocates=False,
         locals=None,
         at=None,
+        eq_identity=False,
     ):
+        self.eq_identity = eq_identity  # trusted __eq__ contract stating that equality is object identity (ids are unique)
         self.at = at or {}  # program-point assertions: {statement source prefix: fn(c, L) -> {name: goal}}
         self.locals = locals or {}  # static types of container-valued locals ([] / set() / {} literals)
         self.entry_facts = entry_facts  # fn(c) -> [Fact] assumed at function entry (verification only)
